@@ -79,6 +79,12 @@ def run(ctx):
                 src = ("find %s %s" % (ctext, b)) if kind == "find" else ("replace %s %s with '<' value '>' matchNumber" % (ctext, b))
                 cases.append({"src": src, "texts": long_texts})
                 meta.append((b + " (long)", kind, ctext, spec))
+    # captures that only SOME matches bind, written by the replacer: the replacement of a match depends on that match alone, wherever the window starts
+    capbodies = ["('a' = s) or 'b'", "maybe ('a' = s) 'b'", "at least 0 ('a' = s) 'b'", "('a' = s 'a') or ('a' = t) or 'b'", "(letter = s) maybe ('a' = t)"]
+    for b in capbodies:
+        for ctext, spec in cls:
+            cases.append({"src": "replace %s %s with '<' s '|' t '>' matchNumber" % (ctext, b), "texts": texts})
+            meta.append((b + " (captures in the replacer)", "replace", ctext, spec))
     gres, dis, stats = corr_core.run_core(cases, shards=12)
     # index of the `all` case per (body, kind)
     base = {}
